@@ -23,8 +23,9 @@ for a in edits_raw:
     else:
         cur.append(a)
 if cur: edits.append(cur)
-R, H, ROOT = '/tmp/mut/repo', '/tmp/mut/harness', '/tmp/mut/root'
-os.makedirs('/tmp/mut', exist_ok=True)
+M = os.environ.get('MUT_DIR', '/tmp/mut')   # scratch directory (set MUT_DIR to run several evaluations side by side)
+R, H, ROOT = M + '/repo', M + '/harness', M + '/root'
+os.makedirs(M, exist_ok=True)
 def sh(c): return subprocess.run(c, shell=True, capture_output=True, text=True)
 # -c without -t: files whose content changed get a NEW mtime, so cargo rebuilds them
 # (preserving mtimes would let a stale, previously mutated object survive)
